@@ -28,7 +28,7 @@ FUNCTIONS_ENCODED = ['SuperNetCombiner.forward/sample_alpha_sm/best_layer_index'
                      'link_combiners_to_branches (natively at construction)']
 BOUNDS = {'quick': 'S(n, kind): n in {2,3,4} x kinds {conv, seq, user, userfn, identity}, n=11 and n=12 (conv), 2 blocks, block used twice; all winner tuples by forking',
           'thorough': 'n = 2..12 for every kind incl. useradd and mix, 1..3 blocks, block used twice'}
-OUTSIDE = ['nested choice blocks', 'float32 round-off (exact arithmetic)', 'ties are covered by the `ties` programs only (n <= 4 quick, <= 5 thorough); the other programs assume pairwise distinct coefficients']
+OUTSIDE = ['choice blocks nested more than one level deep', 'float32 round-off (exact arithmetic)', 'ties are covered by the `ties` programs only (n <= 4 quick, <= 5 thorough); the other programs assume pairwise distinct coefficients']
 ASSUMPTIONS = ['coefficients pairwise distinct except in the `ties` programs, where the maximum of at least one block is attained twice; torch.argmax returns the first maximal index (CPU behaviour)', 'weights: generic dyadic values (selection does not depend on them)']
 INSTANCE_TIMEOUT_S = {'quick': 1500, 'thorough': 3600}
 Q = 60000
@@ -44,6 +44,8 @@ def instances(tier, seed):
                 specs.append({'n': n, 'kind': kind})
         specs += [{'n': 11, 'kind': 'conv'}, {'n': 12, 'kind': 'conv'}, {'n': 2, 'kind': 'conv', 'blocks': 2}, {'n': 3, 'kind': 'seq', 'twice': True},
                   {'n': 2, 'kind': 'mix', 'blocks': 2, 'twice': True}, {'n': 2, 'kind': 'dw'}, {'n': 2, 'kind': 'conv', 'stem2': True},
+                  # a choice block inside a branch of another choice block
+                  {'n': 2, 'kind': 'nested'}, {'n': 2, 'kind': 'nested_last'}, {'n': 3, 'kind': 'nested_last'},
                   # blocks declared with Gumbel sampling: in eval mode hard selection must still be a plain one-hot
                   {'n': 2, 'kind': 'conv', 'gumbel': True}, {'n': 3, 'kind': 'seq', 'gumbel': True},
                   # coefficients with a tie for the maximum (e.g. the uniform initialisation): the first maximal branch is the winner
@@ -57,6 +59,7 @@ def instances(tier, seed):
                 for twice in (False, True):
                     specs.append({'n': n, 'kind': 'mix', 'blocks': blocks, 'twice': twice})
         specs += [{'n': 11, 'kind': 'conv', 'twice': True}, {'n': 4, 'kind': 'seq', 'twice': True}]
+        specs += [{'n': n, 'kind': k, 'blocks': b} for n in (2, 3, 4) for k in ('nested', 'nested_last') for b in (1, 2)]
         specs += [{'n': n, 'kind': k, 'ties': True} for n in (2, 3, 4, 5) for k in ('conv', 'seq', 'mix')] + [{'n': 2, 'kind': 'conv', 'blocks': 2, 'ties': True}]
         specs += [{'n': n, 'kind': k, 'gumbel': True} for n in (2, 3, 4) for k in ('conv', 'seq', 'mix')] + [{'n': 2, 'kind': 'mix', 'blocks': 2, 'gumbel': True}]
     return [{'id': snlib.prog_id(s), 'spec': s, 'wseed': seed} for s in specs]
@@ -69,14 +72,25 @@ def tree_check(sn, exported, winners):
     for n, m in exported.named_modules():
         if isinstance(m, SuperNetCombiner):
             return f'combiner {n} survives in the exported network'
+    blocks = {c: c.replace('seed.', '').rsplit('.sn_combiner', 1)[0] for c in winners}
     for cname, win in winners.items():
-        block = cname.replace('seed.', '').rsplit('.sn_combiner', 1)[0]
+        block = blocks[cname]
         pat = re.compile(re.escape(block) + r'\.sn_branches\.(\d+)(\.|$)')
         kept = set()
         for n in names:
             mm = pat.match(n)
             if mm:
                 kept.add(int(mm.group(1)))
+        # a block nested in a branch of another block exists in the exported network only if every enclosing block selected that branch
+        live = True
+        for c2, b2 in blocks.items():
+            if c2 != cname and block.startswith(b2 + '.sn_branches.'):
+                idx = int(block[len(b2 + '.sn_branches.'):].split('.')[0])
+                live = live and idx == winners[c2]
+        if not live:
+            if kept:
+                return f'block {block} (inside a discarded branch): branches {sorted(kept)} left in the exported network'
+            continue
         branch = sn.get_submodule(cname.rsplit('.sn_combiner', 1)[0] + f'.sn_branches.{win}')
         has_params = any(True for _ in branch.parameters())
         if kept - {win}:
